@@ -555,3 +555,68 @@ package fun
 //@   ensures value: callret1(pf, calls(pf) - 1) == nil ==> result1 == nil && result0 == callret0(pf, calls(pf) - 1) && calls(cancel) == old(calls(cancel))
 //@   ensures skips: callret1(pf, calls(pf) - 1) != nil && mayContinue(opts, callret1(pf, calls(pf) - 1)) ==> result1 == ErrIteratorSkip && calls(cancel) == old(calls(cancel))
 //@   ensures aborts: callret1(pf, calls(pf) - 1) != nil && !mayContinue(opts, callret1(pf, calls(pf) - 1)) ==> result1 == io_EOF && calls(cancel) > old(calls(cancel))
+
+// More hook wrappers (C15): "PreHook/PostHook run their parts in the documented
+// order", each part exactly once per call.
+//@ func (Operation).PreHook$1
+//@   props C15
+//@   option calls-after wf hook
+//@   requires wf != nil && hook != nil && wf != hook
+//@   ensures calls(wf) == old(calls(wf)) + 1 && calls(hook) == old(calls(hook)) + 1
+
+//@ func (Producer).PreHook$1
+//@   props C15
+//@   panics when true
+//@   option calls-after pf op
+//@   option callbacks-may-panic
+//@   requires pf != nil && op != nil
+//@   ensures calls(pf) == old(calls(pf)) + 1 && calls(op) == old(calls(op)) + 1
+//@   ensures result0 == callret0(pf, calls(pf) - 1)
+
+//@ func (Producer).PostHook$1
+//@   props C15
+//@   panics when true
+//@   option calls-after op pf
+//@   option callbacks-may-panic
+//@   requires pf != nil && op != nil
+//@   ensures calls(pf) == old(calls(pf)) + 1 && calls(op) == old(calls(op)) + 1
+//@   ensures result0 == callret0(pf, calls(pf) - 1)
+
+//@ func (Processor).PreHook$1
+//@   props C15
+//@   panics when true
+//@   option calls-after pf op
+//@   option callbacks-may-panic
+//@   requires pf != nil && op != nil
+//@   ensures calls(pf) == old(calls(pf)) + 1 && calls(op) == old(calls(op)) + 1
+
+//@ func (Processor).PostHook$1
+//@   props C15
+//@   panics when true
+//@   option calls-after op pf
+//@   option callbacks-may-panic
+//@   requires pf != nil && op != nil
+//@   ensures calls(pf) == old(calls(pf)) + 1 && calls(op) == old(calls(op)) + 1
+
+//@ func (Handler).Join$1
+//@   props C15
+//@   option calls-after next of
+//@   requires of != nil && next != nil && of != next
+//@   ensures calls(of) == old(calls(of)) + 1 && calls(next) == old(calls(next)) + 1
+
+// Join (merge): the first part runs; its failure ends the call without running
+// the second; otherwise the second runs exactly when the context has not expired.
+//@ func (Worker).merge$1
+//@   props C15
+//@   option calls-after next wf
+//@   requires wf != nil && next != nil && wf != next && ctx != nil
+//@   ensures first: calls(wf) + calls(next) >= old(calls(wf) + calls(next)) + 1
+//@   ensures failed: callret0(wf, old(calls(wf))) != nil && wf != next ==> result == callret0(wf, old(calls(wf)))
+//@   ensures stops: callret0(wf, old(calls(wf))) != nil ==> calls(next) == old(calls(next))
+//@   ensures once: calls(wf) == old(calls(wf)) + 1 && calls(next) <= old(calls(next)) + 1
+
+//@ func (Operation).merge$1
+//@   props C15
+//@   option calls-after next wf
+//@   requires wf != nil && next != nil && wf != next && ctx != nil
+//@   ensures calls(wf) == old(calls(wf)) + 1 && calls(next) >= old(calls(next)) && calls(next) <= old(calls(next)) + 1
